@@ -202,4 +202,10 @@ example : roundTrip ⟨[], [], none, [⟨⟨1, none⟩, some 7⟩, ⟨⟨2, none
     some ⟨[], [], none, [⟨⟨2, none⟩, none⟩, ⟨⟨1, none⟩, some 7⟩], none⟩ := by decide
 example : wellFormed ⟨[⟨⟨1, none⟩, none⟩], [⟨⟨2, none⟩, some 3⟩], none, [⟨⟨1, none⟩, some 7⟩, ⟨⟨2, none⟩, none⟩], none⟩ := by decide
 
+/-- `Arguments::defaults()` is the `defaults` list of the (repaired) Python-style form as well -/
+theorem defaults_eq (a : Arguments) : PV.C14.defaults a = (toPython a).defaults := by
+  simp [PV.C14.defaults, toPython_eq]
+
+example : PV.C14.defaults ⟨[⟨⟨1, none⟩, some 5⟩], [⟨⟨3, none⟩, some 6⟩], none, [], none⟩ = [5, 6] := by decide
+
 end PV.C14.Fixed
